@@ -18,12 +18,18 @@ import (
 type verifCWClient struct {
 	calls, failed, data int
 	tooBig              bool
+	cancel              context.CancelFunc // when set: a call may coincide with shutdown
+	cancelled           bool
 }
 
 func (c *verifCWClient) PutMetricData(ctx context.Context, in *cloudwatch.PutMetricDataInput, _ ...func(*cloudwatch.Options)) (*cloudwatch.PutMetricDataOutput, error) {
 	c.calls++
 	if len(in.MetricData) > 20 || len(in.MetricData) == 0 {
 		c.tooBig = true
+	}
+	if c.cancel != nil && !c.cancelled && nondetBool() {
+		c.cancelled = true
+		c.cancel()
 	}
 	if nondetBool() {
 		c.failed++
@@ -34,7 +40,9 @@ func (c *verifCWClient) PutMetricData(ctx context.Context, in *cloudwatch.PutMet
 }
 
 func VerifC16_Cloudwatch() {
-	api := &verifCWClient{}
+	ctx, cancel := context.WithCancel(context.Background())
+	defer cancel()
+	api := &verifCWClient{cancel: cancel}
 	c := &Client{namespace: "StatsD", cloudwatch: api}
 	mm := gostatsd.NewMetricMap(false)
 	ng := nondetIntIn(0, 3)
@@ -51,7 +59,7 @@ func VerifC16_Cloudwatch() {
 	want := len(c.buildMetricData(mm))
 	calls := 0
 	var got []error
-	c.SendMetricsAsync(context.Background(), mm, func(errs []error) {
+	c.SendMetricsAsync(ctx, mm, func(errs []error) {
 		calls++
 		got = errs
 	})
@@ -63,9 +71,14 @@ func VerifC16_Cloudwatch() {
 			nonNil++
 		}
 	}
-	verifAssert(nonNil == api.failed, "cloudwatch: one error per failed call, none otherwise")
+	if !api.cancelled {
+		verifAssert(nonNil == api.failed, "cloudwatch: one error per failed call, none otherwise")
+	} else {
+		verifAssert(api.failed == 0 || nonNil > 0, "cloudwatch: a failed call is reported also when the daemon is shutting down")
+		verifReach("cancelled")
+	}
 	verifAssert(!api.tooBig, "cloudwatch: every call carries 1..20 data")
-	if api.failed == 0 {
+	if api.failed == 0 && !api.cancelled {
 		verifAssert(api.data == want, "cloudwatch: every datum is sent exactly once")
 		verifReach("clean")
 	} else {
